@@ -74,6 +74,7 @@ DepositEvents(s) ==
      \cup {Dep("e1", q, "u2", "u1", D1, amt, "d1", h, f) : amt \in {0, 2}, h \in {NoHook, HookMsgs("u1", << [kind |-> "send", to |-> "u3", denom |-> D1, amt |-> 1] >>)}, f \in Faults}
      \cup {Dep("e1", q, "u2", "u1", D1, 2, "d1", h, "none") : h \in HooksN(q)}
      \cup {Dep("e1", q, "u2", "u1", D1, 0, "d1", HookMsgs("e2", << DpM(q + 1, "u2", "u3", D1, 1, "d1") >>), "mintErr")}
+     \cup {Dep("e1", q, "u2", to, D2, 1, "d2", NoHook, "none") : to \in {"u1", "opchild"}}      \* first deposits (credited / refunded) of the denom with earlier metadata
      \cup {Dep("e1", q, "bad:empty", "u1", D1, 1, "d1", NoHook, "none"), Dep("e1", q, "u2", "u1", "bad:denom", 1, "d1", NoHook, "none"),
            Dep("e1", q, "u2", "u1", D1, 1, "bad:denom", NoHook, "none"), Dep("e1", q, "u2", "u1", D1, 1, "d2", NoHook, "none"),
            Dep("e1", q, "u2", "opchild", D1, 1, "d2", NoHook, "none"), Dep("e1", q, "u2", "bad:notbech32", D1, 0, "d2", NoHook, "none"),
@@ -109,9 +110,10 @@ Events(s) ==
     [] Fam = "deposit" -> DepositEvents(s)
     [] Fam = "auth"    -> AuthEvents(s)
 
-S0 == InitState(Accts, Denoms, {N1}, Funded, Params0, 3, Devs)
+PreMeta == IF Fam = "deposit" THEN {D2} ELSE {}     \* a bridged denom whose bank metadata exists before its first deposit
+S0 == InitState(Accts, Denoms, {N1} \cup PreMeta, Funded, Params0, 3, Devs)
 
-ASSUME PrintT("META " \o ToJson([accts |-> Accts, denoms |-> Denoms, funded |-> Funded, params |-> Params0, devs |-> Devs]))
+ASSUME PrintT("META " \o ToJson([accts |-> Accts, denoms |-> Denoms, funded |-> Funded, params |-> Params0, devs |-> Devs, premeta |-> PreMeta]))
 
 Init == /\ st = S0
         /\ last = [e |-> [type |-> "Init"], ok |-> TRUE, resp |-> NoResp, failed |-> {}]
